@@ -125,7 +125,9 @@ func TestConcurrentPresentations(t *testing.T) {
 	defer runtime.GOMAXPROCS(runtime.GOMAXPROCS(0))
 	rapid.Check(t, func(t *rapid.T) {
 		id := caseCounter.Add(1)
-		prefix := fmt.Sprintf("case-%08d-%02d|", id, lib.Seed()%97)
+		// ten pseudo-random hex digits keep Adler-32 collisions between cases rare (a plain counter differs in too few
+		// bytes for that checksum); the rest of the collisions is handled by the repository model below
+		prefix := fmt.Sprintf("c%07d%010x|", id, (uint64(id)*0x9E3779B97F4A7C15+uint64(lib.Seed()))>>24)
 		hs := genHasher(t)
 		viaPublisher := rapid.Bool().Draw(t, "viaPublisherDecorator")
 		procs := rapid.SampledFrom([]int{2, 4, 16, 16}).Draw(t, "gomaxprocs")
@@ -134,21 +136,27 @@ func TestConcurrentPresentations(t *testing.T) {
 		payloads := genPayloads(t, nPayloads, prefix)
 		ng := rapid.IntRange(1, 32).Draw(t, "goroutines")
 		rounds := rapid.IntRange(1, 8).Draw(t, "rounds")
-		// a fresh long-window repository per case: with a shared one, documented Adler-32 collisions between
-		// the keys of different cases would look like suppression (its ticker goroutine is parked for the whole run)
-		repo, err := middleware.NewMapExpiringKeyRepository(time.Hour)
-		if err != nil {
-			t.Fatalf("NewMapExpiringKeyRepository: %v", err)
-		}
-		d := &middleware.Deduplicator{KeyFactory: hs.build(), Repository: repo, Timeout: time.Second}
+		// Repository model. Every repository leaks its ticker goroutine for the rest of the process (no stop API),
+		// which under the race detector costs >100 kB each, so the explicit configurations share ONE long-window
+		// repository per process. Keys are short (Adler-32: 4 bytes) and collide across cases as documented, so the
+		// oracle is model-based: `known` is the set of keys the repository in use has been given so far; a key
+		// class passes exactly once if its key is not yet known and not at all if it is.
+		d := &middleware.Deduplicator{KeyFactory: hs.build(), Repository: sharedRepo(t), Timeout: time.Second}
+		known := sharedKnown
+		freshPerRound := false
 		// documented defaults: nil Deduplicator / unset fields = Adler-32 over the whole payload, in-memory repository
-		switch rapid.SampledFrom([]string{"explicit", "explicit", "nil", "zero", "no-timeout"}).Draw(t, "configuration") {
-		case "nil":
+		switch rapid.SampledFrom(configurations).Draw(t, "configuration") {
+		case "nil": // every Middleware/PublisherDecorator call builds its own default repository
 			d = nil
 			hs = hasherSpec{Kind: "adler", Limit: math.MaxInt64}
-		case "zero":
+			freshPerRound = true
+			if rounds > 2 {
+				rounds = 2
+			}
+		case "zero": // the first call fills in the defaults, the repository then lives as long as the value
 			d = &middleware.Deduplicator{}
 			hs = hasherSpec{Kind: "adler", Limit: math.MaxInt64}
+			known = map[string]bool{}
 		case "no-timeout":
 			d.Timeout = 0
 		}
@@ -156,6 +164,9 @@ func TestConcurrentPresentations(t *testing.T) {
 		concurrentDup := false
 		for r := 0; r < rounds; r++ {
 			rprefix := fmt.Sprintf("%sr%d|", prefix, r)
+			if freshPerRound {
+				known = map[string]bool{}
+			}
 			// each goroutine presents one message
 			msgs := make([]*message.Message, ng)
 			classes := map[string][]int{}
@@ -286,6 +297,12 @@ func TestConcurrentPresentations(t *testing.T) {
 					}
 				}
 			}
+			// the repository has been given every key of this round by now, whatever the verdict below is
+			wasKnown := map[string]bool{}
+			for k := range classes {
+				wasKnown[k] = known[k]
+				known[k] = true
+			}
 			for k, gs := range classes {
 				n := 0
 				for _, g := range gs {
@@ -312,9 +329,16 @@ func TestConcurrentPresentations(t *testing.T) {
 						t.Fatalf("violation: duplicate dropped by the publisher decorator was not acked")
 					}
 				}
-				if n != 1 {
-					t.Fatalf("violation: key class %x presented by %d goroutines concurrently: %d reached the %s, want exactly 1 (hasher %s limit %d, payload lengths %v)",
-						k, len(gs), n, map[bool]string{true: "wrapped publisher", false: "handler"}[viaPublisher], hs.Kind, hs.Limit, lens(msgs, gs))
+				want := 1
+				if wasKnown[k] {
+					want = 0 // the key collides with one the repository already holds (earlier round or case)
+					lib.Count("class-key-already-known", 1)
+					lib.Count("class-key-already-known|"+hs.Kind, 1)
+				}
+				if n != want {
+					t.Fatalf("violation: key class %x presented by %d goroutines concurrently (+%d batch extras): %d reached the %s, want exactly %d (hasher %s limit %d, payload lengths %v)\n%s",
+						k, len(gs), len(extraByClass[k]), n, map[bool]string{true: "wrapped publisher", false: "handler"}[viaPublisher], want, hs.Kind, hs.Limit, lens(msgs, gs),
+						classDiagnostics(d, hs, msgs, gs, results, passed))
 				}
 			}
 		}
@@ -323,6 +347,46 @@ func TestConcurrentPresentations(t *testing.T) {
 			lib.Sample(map[string]any{"test": "ConcurrentPresentations", "hasher": hs.Kind, "read_limit": hs.Limit, "via_publisher": viaPublisher, "goroutines": ng, "rounds": rounds, "payload_lengths": lensAll(payloads)})
 		}
 	})
+}
+
+// configurations: the default ones build a repository (= one leaked goroutine) per case or per round, so they are drawn less often
+var configurations = []string{"explicit", "explicit", "explicit", "explicit", "explicit", "explicit", "explicit", "explicit", "explicit", "explicit", "explicit", "explicit", "no-timeout", "no-timeout", "nil", "zero"}
+
+var (
+	sharedOnce  sync.Once
+	sharedR     middleware.ExpiringKeyRepository
+	sharedKnown = map[string]bool{} // only touched by the (sequential) property function
+)
+
+func sharedRepo(t *rapid.T) middleware.ExpiringKeyRepository {
+	sharedOnce.Do(func() {
+		r, err := middleware.NewMapExpiringKeyRepository(48 * time.Hour)
+		if err != nil {
+			panic(err)
+		}
+		sharedR = r
+	})
+	return sharedR
+}
+
+// classDiagnostics makes a (schedule-dependent, not replayable) failure decidable from its log: the key the code under
+// test computes now for every member of the class, next to what the member experienced.
+func classDiagnostics(d *middleware.Deduplicator, hs hasherSpec, msgs []*message.Message, gs []int, results []string, passed map[int]bool) string {
+	kf := hs.build()
+	if d != nil && d.KeyFactory != nil {
+		kf = d.KeyFactory
+	}
+	var b strings.Builder
+	for _, g := range gs {
+		key, err := kf(msgs[g])
+		sum := sha256.Sum256(msgs[g].Payload)
+		fmt.Fprintf(&b, "  g%d uuid=%s key-now=%x (err %v) ref=%x payload-sha=%x len=%d result=%q reached=%v\n",
+			g, msgs[g].UUID, key, err, hs.refKey(msgs[g]), sum[:6], len(msgs[g].Payload), results[g], passed[g])
+	}
+	if d != nil {
+		fmt.Fprintf(&b, "  repository=%p timeout=%v", d.Repository, d.Timeout)
+	}
+	return b.String()
 }
 
 func lens(msgs []*message.Message, gs []int) []int {
@@ -401,7 +465,9 @@ func TestRetentionWindow(t *testing.T) {
 		calls := 0
 		h := d.Middleware(func(m *message.Message) ([]*message.Message, error) { calls++; return nil, nil })
 		// many other live keys: the clean-up cycle then takes a while; the key must stay remembered during it
-		ballast := rapid.SampledFrom([]int{0, 0, 1000, 50000, 200000}).Draw(t, "otherLiveKeys")
+		// (the repository of every case keeps ticking over its never-shrinking map for the rest of the process: sizes
+		// and frequencies are kept small enough that the leaked clean-up work stays far below one core per process)
+		ballast := rapid.SampledFrom([]int{0, 0, 0, 0, 0, 0, 0, 0, 1000, 1000, 1000, 1000, 20000, 20000, 20000, 50000}).Draw(t, "otherLiveKeys")
 		for i := 0; i < ballast; i++ {
 			repo.IsDuplicate(context.Background(), fmt.Sprintf("ballast-%d", i))
 		}
@@ -447,7 +513,17 @@ func TestRetentionWindow(t *testing.T) {
 			return calls != before
 		})
 		if !again {
-			t.Fatalf("violation: key not accepted again within %v although the window is %v", lib.Live, window)
+			// a miss of the liveness bound is confirmed over a much longer bound before it is reported: the first
+			// bound can be missed on a machine that is saturated by other processes
+			again = lib.WaitUntil(6*lib.Live, func() bool {
+				before := calls
+				h(message.NewMessage("again", payload))
+				return calls != before
+			})
+			lib.Count("retention-reaccept-slow", 1)
+			if !again {
+				t.Fatalf("violation: key not accepted again within %v although the window is %v", 7*lib.Live, window)
+			}
 		}
 		lib.Case(fmt.Sprintf("ret|%d|%v", windowMs, offsets), checked > 0, "retention", fmt.Sprintf("checked-in-window=%d", checked))
 		lib.Sample(map[string]any{"test": "RetentionWindow", "window": window.String(), "offsets": offsets, "in_window_checks": checked})
